@@ -40,9 +40,9 @@ type Ext struct {
 	A     string `json:"a" multiref:"alpha,al"`
 	P     int    `json:"p" multiref:"pint"`
 	Flag  bool   `json:"flag" multiref:"f"`
-	Note  string `json:"note"`
-	Count int    `json:"count"`
-	On    bool   `json:"on"`
+	Note  string `json:"note,omitempty"` // json tags may carry options: the key is the name in front of them
+	Count int    `json:"count,string"`
+	On    bool   `json:"on,omitempty"`
 }
 
 // ExtScheme embeds Ext (two levels of embedding) and adds the scheme that lets
